@@ -662,6 +662,15 @@ pub fn judge(run : &mut HistRun, obs : &Obs, judge : &mut Judge) -> Vec<Violatio
         if failing > 0 { judge.tally.counts.inc("builds_with_failures"); }
     }
     let fail_clean = fail.len() == 0;
+    // C20's last clause: "each failure is reported once" - the same comparison of the reported errors with the model's
+    // failing set, seen from the reporting side
+    for v in fail.iter()
+    {
+        if v.signature.starts_with("error-missing") || v.signature.starts_with("unexpected-error")
+        {
+            all.push(Violation::new("C20", "failure-not-reported-exactly-once", v.what.clone()));
+        }
+    }
     all.extend(fail);
 
     // C07
